@@ -249,7 +249,7 @@ func (e *Engine) havocForLoop(st *State, W *writeSet, ctx *LoopCtx, li *loopInfo
 	e.pendingWF = nil
 	for _, cl := range sortedKeys(all) {
 		k, ok := e.classKinds[cl]
-		if ok && k == LKInt {
+		if ok && (k == LKInt || k == LKSlLen || k == LKSlCap || k == LKSlOff) {
 			if ax := e.rangeAxiom(cl, st.Heap[cl]); ax != nil {
 				e.assumeQuiet(st, ax)
 			}
